@@ -515,7 +515,7 @@ def wire_fixed(kinds):
                                         cfg={"kind": "rt", "codec": codec, "dir": d, "msgs": msgs, "rscript": [], "wscript": [],
                                              "transit": 0, "close": close, "cap": 1}, steps=[]))
         if "live" in kinds:
-            items = ["req", "req-idmax", "req-past", "dup", "cancel-unknown", "cancel-idmax", "dl-3y", "dl-10y", "dl-100y",
+            items = ["req", "req-idmax", "req-past", "dup", "req-twice", "req-twice-cancel", "req-dup-past", "cancel-unknown", "cancel-idmax", "dl-3y", "dl-10y", "dl-100y",
                      "dl-10000y", "dl-u64max", "dl-i64max", "dl-2p36ms", "garbage", "truncated", "hugelen"]
             for codec in ("json", "bincode"):
                 for it in items:
@@ -586,7 +586,7 @@ PROPS["C16"] = dict(
     level="exploration", verdict="Verdict_C16",
     rule=("peer-supplied input: seeded random byte strings, mutations and truncations of valid encodings fed to the four framed decoders; boundary-valued "
           "well-typed messages (ids 0/2^64-1, deadlines 3 y / 10 y / 100 y / 10000 y / u64::MAX s / i64::MAX s / just above the timer range, cancels and "
-          "duplicates for unknown ids, duplicate floods) sent to a live BaseChannel->Requests over the serde transport followed by a probe request that must "
+          "duplicates for unknown ids, duplicates of in-flight requests followed by their answer or cancellation, duplicate floods) sent to a live BaseChannel->Requests over the serde transport followed by a probe request that must "
           "be served; caller-chosen extreme deadlines through the client dispatch; each with no subscriber, a formatting subscriber and an OpenTelemetry "
           "layer; distinct by cfg; non-trivial = any"),
     assumptions=WIRE_ASSUME + ["TLA+ contributes the message classes and their sequencing with valid traffic; the decoder's behaviour on specific byte strings is seeded sampling",
